@@ -1,3 +1,102 @@
-From Coq Require Import ZArith List Bool.
-Require Import EmbossV.Bits.Model.
-Lemma placeholder_c02 : True. Proof. exact I. Qed.
+(* C02 -- scalar fields decode with the documented byte order, bit numbering and format.
+   Statements only; proofs are in Proofs_*.v.  [read_uint], [read_int], [bits_field] ... are the
+   Gallina mirrors of the C++ read path in Bits/Model.v ([true] = the runtime as compiled by GCC/Clang:
+   memcpy + byte swap, two's-complement ConvertToSigned). *)
+From Coq Require Import ZArith NArith List Bool.
+Import ListNotations.
+Require Import EmbossV.Bits.Model EmbossV.Bits.Proofs_Int EmbossV.Bits.Proofs_Load EmbossV.Bits.Proofs_Read
+               EmbossV.Bits.Proofs_Bcd EmbossV.Bits.Proofs_C02.
+Open Scope Z_scope.
+
+(* container: 1..8 bytes (Null order: 1 byte); field: 1 <= w, 0 <= off, off + w <= 8 * bytes.
+   cvz o bs = the container's value in its byte order (as a Z); bit 0 is its least significant bit. *)
+Theorem read_uint_spec : forall o bs off w, container_ok o bs -> field_ok bs off w ->
+  read_uint true o bs off w = Some ((cvz o bs / 2 ^ off) mod 2 ^ w).
+Proof. exact read_uint_spec_l. Qed.
+
+Theorem read_int_spec : forall o bs off w, container_ok o bs -> field_ok bs off w ->
+  read_int true o bs off w = Some (twos_complement w ((cvz o bs / 2 ^ off) mod 2 ^ w)).
+Proof. exact read_int_spec_l. Qed.
+
+Theorem read_bcd_spec : forall o bs off w, container_ok o bs -> field_ok bs off w ->
+  bcd_read true (bits_field o bs off w) w = Some (bcd_value (bcd_digits w) (spec_bits o bs off w)).
+Proof. exact read_bcd_spec_l. Qed.
+
+(* IsBcd's parallel-nibble trick, for every value of the type it is instantiated at (all 2^64 for uint64_t) *)
+Theorem is_bcd_spec : forall ct x, std_cty ct -> csigned ct = false -> 0 <= x < 2 ^ cbits ct ->
+  exists b, is_bcd ct x = Some b /\ (b = true <-> forall i : nat, nibble i x <= 9).
+Proof. exact is_bcd_spec_l. Qed.
+
+(* ... and for any number of nibbles, as pure arithmetic *)
+Theorem bcd_trick_all_widths : forall k x, 0 <= x < 16 ^ Z.of_nat k ->
+  (Z.land (Z.land ((16 ^ Z.of_nat k - 1 - x - c6 k) mod 16 ^ Z.of_nat k) x) (c8 k) =? 0) = all_nibbles_le9 k x.
+Proof. exact bcd_trick. Qed.
+
+Theorem bcd_ok_spec : forall o bs off w, container_ok o bs -> field_ok bs off w ->
+  exists b, bcd_ok true (bits_field o bs off w) w = Some b /\
+            (b = true <-> forall i : nat, nibble i (spec_bits o bs off w) <= 9).
+Proof. exact bcd_ok_spec_l. Qed.
+
+Theorem flag_spec : forall o bs off, container_ok o bs -> field_ok bs off 1 ->
+  flag_read true (bits_field o bs off 1) = Some (Z.testbit (cvz o bs) off).
+Proof. exact flag_spec_l. Qed.
+
+(* Float: the value is the field's exact w-bit pattern (the C++ memcpy is the identity on it) *)
+Theorem float_bits_spec : forall o bs off w, container_ok o bs -> field_ok bs off w ->
+  float_read_bits true (bits_field o bs off w) w = Some (spec_bits o bs off w).
+Proof. exact float_bits_spec_l. Qed.
+
+Theorem enum_read_spec : forall o bs off w ut, container_ok o bs -> field_ok bs off w ->
+  std_cty ut -> csigned ut = false -> w <= cbits ut ->
+  enum_read true (bits_field o bs off w) ut w = Some (spec_bits o bs off w).
+Proof. exact enum_read_spec_l. Qed.
+
+(* F1: signed enum narrower than its underlying type is NOT sign-extended *)
+Theorem enum_signed_read_refuted :
+  exists o bs off w ut v, container_ok o bs /\ field_ok bs off w /\ std_cty ut /\ csigned ut = true /\ w <= cbits ut /\
+    enum_read true (bits_field o bs off w) ut w = Some v /\
+    v <> twos_complement w (spec_bits o bs off w).
+Proof. exact enum_signed_read_refuted_l. Qed.
+
+Theorem enum_signed_read_refuted_at_struct_level :
+  enum_read true (whole_field LE [255%N]) i64 8 = Some 255 /\ twos_complement 8 255 = -1.
+Proof. exact enum_signed_read_refuted_struct. Qed.
+
+(* what remains true: field width = width of the underlying type *)
+Theorem enum_signed_read_partial : forall o bs off ut, container_ok o bs -> field_ok bs off (cbits ut) ->
+  std_cty ut -> csigned ut = true ->
+  enum_read true (bits_field o bs off (cbits ut)) ut (cbits ut)
+  = Some (twos_complement (cbits ut) (spec_bits o bs off (cbits ut))).
+Proof. exact enum_signed_read_partial_l. Qed.
+
+Theorem nested_read_spec : forall o bs off1 s1 off w, container_ok o bs -> field_ok bs off1 s1 ->
+  1 <= w -> 0 <= off -> off + w <= s1 ->
+  uint_read true (get_offset_storage (bits_field o bs off1 s1) off w) w = Some (spec_bits o bs (off1 + off) w).
+Proof. exact nested_read_spec_l. Qed.
+
+Theorem struct_read_uint_spec : forall o bs, container_ok o bs ->
+  uint_read true (whole_field o bs) (8 * Z.of_nat (length bs)) = Some (cvz o bs).
+Proof. exact struct_read_uint_spec_l. Qed.
+
+(* no step of the read path is undefined or trips a CHECK (the results above are [Some]), the value type
+   LeastWidthInteger<w> has at least w bits and holds every decoded value *)
+Theorem value_type_wide_enough : forall o bs off w, container_ok o bs -> field_ok bs off w ->
+  w <= lw w /\
+  (exists v, read_uint true o bs off w = Some v /\ in_cty (uty w) v) /\
+  (exists v, read_int true o bs off w = Some v /\ in_cty (sty w) v) /\
+  (exists v, bcd_read true (bits_field o bs off w) w = Some v /\ in_cty (uty w) v).
+Proof. exact value_type_wide_enough_l. Qed.
+
+Theorem nonvacuous_container : container_ok BE [18%N; 52%N; 171%N] /\ field_ok [18%N; 52%N; 171%N] 4 12.
+Proof. exact ex_container. Qed.
+
+Theorem nonvacuous_reads :
+  read_uint true BE [18%N; 52%N; 171%N] 4 12 = Some 842 /\
+  read_int true BE [18%N; 52%N; 171%N] 4 12 = Some 842 /\
+  read_int true LE [18%N; 52%N; 171%N] 12 12 = Some (-1357) /\
+  bcd_read true (bits_field BE [18%N; 52%N; 171%N] 8 16) 16 = Some 1234 /\
+  bcd_ok true (bits_field BE [18%N; 52%N; 171%N] 8 16) 16 = Some true /\
+  bcd_ok true (bits_field BE [18%N; 52%N; 171%N] 0 16) 16 = Some false /\
+  read_uint false BE [18%N; 52%N; 171%N] 4 12 = Some 842 /\
+  read_int false LE [18%N; 52%N; 171%N] 12 12 = Some (-1357).
+Proof. exact ex_reads. Qed.
